@@ -42,8 +42,8 @@ PROPERTIES = {
             "assumptions": ["reference DNS codec is the trusted base", A_E2E]},
     "C05": {"level": "exploration", "legs": [vh("c05-decoders-inproc", "c05", "c05"), e2e("c05-services-e2e", "c05-e2e", "e2e_c05.py")],
             "assumptions": [A_E2E, "harness built with overflow-checks and debug-assertions on; panics observed through a panic hook; 120 s watchdog per call"]},
-    "C06": {"level": "exploration", "legs": [vh("c06-cache-inproc", "c06", "c06")],
-            "assumptions": ["the cache is driven through hook H3 (same key construction, lifetime, insert, lookup and expiry code as handle_query) under tokio's paused clock"]},
+    "C06": {"level": "exploration", "legs": [vh("c06-cache-inproc", "c06", "c06"), e2e("c06-cache-e2e", "c06-e2e", "e2e_c06.py")],
+            "assumptions": [A_E2E, "end to end, TTL comparisons allow one second either way; decisions use upstream transmission counts, not latencies", "the cache is driven through hook H3 (same key construction, lifetime, insert, lookup and expiry code as handle_query) under tokio's paused clock"]},
     "C07": {"level": "exploration", "legs": [e2e("c07-exactly-one-reply-e2e", "c07-e2e", "e2e_c07.py")],
             "assumptions": [A_E2E, "bounded-progress restatement: SERVFAIL for a silent upstream must arrive within 100 s (UDP; worst case from the code's constants is 51 s) / 170 s (TCP, thorough only)",
                             "pipelining several queries on one client TCP connection is not demanded by the property and not exercised"]},
@@ -62,13 +62,13 @@ PROPERTIES = {
             "assumptions": [A_E2E, "route choice is fused with forwarding in the code, so it is observed end to end only"]},
     "C16": {"level": "exploration", "legs": [vh("c16-bucket-cookie-inproc", "c16", "c16"), e2e("c16-refused-rate-e2e", "c16-e2e", "e2e_c16.py")],
             "assumptions": [A_E2E, "a source hashes to two buckets, so the per-source bound checked end to end is 2B + 2R(dt+1) plus one maximal charge of slack", "burst B and rate R are read from the code's constants (hook H3)"]},
-    "C17": {"level": "exploration", "legs": [vh("c17-ra-inproc", "c17", "c17")],
-            "assumptions": ["RA decoder written from RFC 4861/8106/8781/8910 is the trusted base; RDNSS/DNSSL lifetime when not configured is unconstrained"]},
+    "C17": {"level": "exploration", "legs": [vh("c17-ra-inproc", "c17", "c17"), e2e("c17-ra-e2e", "c17-e2e", "e2e_c17.py")],
+            "assumptions": [A_E2E, "RA decoder written from RFC 4861/8106/8781/8910 is the trusted base; RDNSS/DNSSL lifetime when not configured is unconstrained"]},
     "C18": {"level": "fault_enumeration", "legs": [hist("C18"), e2e("c18-crash-points-e2e", "c18-e2e", "e2e_c18.py", tq=1200, tt=10800)],
             "assumptions": A_HIST + [A_E2E, "crash = SIGKILL of the process at syscall granularity on tmpfs; power loss and torn sector writes are out of reach",
                                      "kill points are enumerated per syscall name by invocation index; the kernel's scheduling decides which thread issues the N-th call"]},
-    "C19": {"level": "exploration", "legs": [vh("c19-config-inproc", "c19", "c19", 900, 7200)],
-            "assumptions": ["pools beyond 2^20 addresses (IPv4 prefixes /1../11, wide ranges) are skipped and counted: memory exhaustion is not what the property names"]},
+    "C19": {"level": "exploration", "legs": [vh("c19-config-inproc", "c19", "c19", 900, 7200), e2e("c19-dns-config-e2e", "c19-e2e", "e2e_c19.py")],
+            "assumptions": [A_E2E, "pools beyond 2^20 addresses (IPv4 prefixes /1../11, wide ranges) are skipped and counted: memory exhaustion is not what the property names"]},
     "C20": {"level": "exploration", "legs": [hist("C20"), e2e("c20-listing-gauges-e2e", "c20-e2e", "e2e_c20.py")],
             "assumptions": A_HIST + [A_E2E]},
 }
